@@ -91,7 +91,7 @@ class C05(Prop):
         "sets built from Specifier objects with their own overrides are covered by the general theorems + correspondence",
         "hash(): only 'equal sets have the same multiset of member keys' is proved; hash values are CPython's",
     ]
-    budget = {"quick": (8000, 2500), "thorough": (130000, 50000)}
+    budget = {"quick": (6000, 1500), "thorough": (130000, 50000)}
 
     # ------------------------------------------------------------ correspondence
     def gen_cases(self, rng, n):
@@ -343,8 +343,11 @@ class C05(Prop):
             if not (x == y) or hash(x) != hash(y) or str(x) != str(y) or len(x) != len(y):
                 return False, f"SpecifierSet({sa!r}) & SpecifierSet({sb!r}) = {x!r}, parsed from the concatenation: {y!r}"
             for c in inp["cands"]:
-                if x.contains(c, prereleases=True) != y.contains(c, prereleases=True):
-                    return False, f"& and concatenation differ on {c!r}"
+                for p in (True, None, False):
+                    if x.contains(c, prereleases=p) != y.contains(c, prereleases=p):
+                        return False, f"& and concatenation differ on {c!r} (prereleases={p})"
+            if x.prereleases != y.prereleases or [str(v) for v in x.filter(inp["cands"])] != [str(v) for v in y.filter(inp["cands"])]:
+                return False, f"& and concatenation differ in .prereleases / filter(): {x!r} vs {y!r}"
             return True, ""
 
         if law == "str_roundtrip":
